@@ -85,6 +85,7 @@ Init0 ==
      fid       |-> 0,           \* assembler frame id
      \* SessionState
      restart   |-> TRUE,
+     lastRec   |-> NoTime,      \* last_recorded_time
      enabled   |-> {},          \* enabled_unsolicited_classes
      last      |-> NoLast,      \* last_valid_request
      select    |-> NoSel,
@@ -413,6 +414,23 @@ HandleNonRead(s, q) ==
             [st |-> [s EXCEPT !.restart = FALSE,
                               !.ocb = Append(@, MkCb(s.now, "info", "clear_restart_iin", <<>>))],
              resp |-> EmptyResp(q.seq, NoIin)]
+      [] q.f = "record" ->
+            \* RECORD_CURRENT_TIME: remember the instant (kept across sessions), empty reply
+            [st |-> [s EXCEPT !.lastRec = s.now], resp |-> EmptyResp(q.seq, NoIin)]
+      [] q.f = "wtabs" ->
+            \* WRITE g50v1 (time token 5000): handed to the application, which accepts it
+            [st |-> [s EXCEPT !.ocb = Append(@, MkCb(s.now, "app", "write_time", <<5000>>))],
+             resp |-> EmptyResp(q.seq, NoIin)]
+      [] q.f = "wtlast" ->
+            \* WRITE g50v3 (5000): the time plus what elapsed since RECORD_CURRENT_TIME; parameter error without one
+            IF s.lastRec = NoTime THEN [st |-> s, resp |-> EmptyResp(q.seq, [NoIin EXCEPT !.param = TRUE])]
+            ELSE [st |-> [s EXCEPT !.lastRec = NoTime,
+                                   !.ocb = Append(@, MkCb(s.now, "app", "write_time", <<5000 + (s.now - s.lastRec)>>))],
+                  resp |-> EmptyResp(q.seq, NoIin)]
+      [] q.f \in {"cold", "warm"} ->
+            \* COLD / WARM_RESTART: the application is asked; it does not support restarts: IIN2.0
+            [st |-> [s EXCEPT !.ocb = Append(@, MkCb(s.now, "app", q.f \o "_restart", <<>>))],
+             resp |-> EmptyResp(q.seq, [NoIin EXCEPT !.nofn = TRUE])]
       [] q.f = "write2" ->
             \* WRITE with two g80v1 headers: index 4 (not writable: parameter error) and index 7 = 0 (clears the restart
             \* indication), in the order "bg" (rejected first) or "gb".  DEV WriteKeepsLastStatus: handle_write assigned
@@ -749,7 +767,8 @@ Advance(s, target) ==
 (* rep = byte-identical repetition of the previous request fragment          *)
 
 FcOf(f) == CASE f = "read" -> 1 [] f = "delay" -> 23 [] f = "enable" -> 20 [] f = "disable" -> 21
-             [] f = "write_rst" -> 2 [] f = "write2" -> 2 [] f = "select" -> 3 [] f = "operate" -> 4 [] f = "dop" -> 5
+             [] f = "write_rst" -> 2 [] f = "write2" -> 2 [] f = "wtabs" -> 2 [] f = "wtlast" -> 2 [] f = "record" -> 24
+             [] f = "cold" -> 13 [] f = "warm" -> 14 [] f = "select" -> 3 [] f = "operate" -> 4 [] f = "dop" -> 5
              [] f = "dopnr" -> 6 [] f = "unkfn" -> 112 [] OTHER -> 0
 
 Fld(in, name, dflt) == IF name \in DOMAIN in THEN in[name] ELSE dflt
